@@ -2,7 +2,7 @@
 import vlib, s1, gen, s1eval
 
 PROP = "C06"
-STATES = ["keep", "absent", "equal_copy", "different", "other_link", "dangling", "foreign", "dir_in_way", "extra", "fifo"]
+STATES = ["keep", "absent", "equal_copy", "different", "other_link", "dangling", "foreign", "dir_in_way", "extra", "fifo", "lexical_lookalike"]
 
 
 def make_cases(rng, tier, n):
@@ -32,6 +32,10 @@ def make_cases(rng, tier, n):
                 ops.append(("flink", f[1], 0))
             elif st == "foreign":
                 ops.append(("flink", f[1], 1))
+            elif st == "lexical_lookalike":
+                # the link TEXT, cleaned lexically, is the path of the right cache object; the link itself resolves elsewhere
+                # (a `..` after a symbolic link to a directory), i.e. it is a foreign, dangling link
+                ops.append(("lexlink", f[1]))
             elif st == "dir_in_way":
                 ops.append(("mkdir", f[1]))
             elif st == "fifo":
